@@ -238,7 +238,8 @@ def run(tape, scenario):
                 viol("dispatcher-not-attached",
                      f"participants {inside} are inside run() but no XDP program is attached "
                      f"(at {label} of p{p.pid}; last fs ops {fs.oplog[-6:]})",
-                     crash=scenario == "crash", teardown_race=teardown_race())
+                     crash=scenario == "crash", teardown_race=teardown_race(),
+                     install_over_emptied=install_over_emptied())
             else:
                 try:
                     node = fs._lookup(PIN)
@@ -249,12 +250,14 @@ def run(tape, scenario):
                     viol("program-table-not-reachable",
                          f"participants {inside} are inside run() but {PIN} does not resolve "
                          f"(at {label} of p{p.pid}; last fs ops {fs.oplog[-6:]})",
-                         crash=scenario == "crash", teardown_race=teardown_race())
+                         crash=scenario == "crash", teardown_race=teardown_race(),
+                     install_over_emptied=install_over_emptied())
                 elif pinned not in prog.used_maps:
                     viol("pinned-table-is-not-the-dispatchers",
                          f"participants {inside}: the pinned table is not the program table "
                          f"of the attached dispatcher", crash=scenario == "crash",
-                         teardown_race=teardown_race())
+                         teardown_race=teardown_race(),
+                         install_over_emptied=install_over_emptied())
         ets = [(st["ethertype"], u) for u, st in state.items() if st.get("inside")]
         if len({e for e, _ in ets}) != len(ets):
             viol("ethertype-shared", f"live participants' ethertypes {ets}")
@@ -280,6 +283,14 @@ def run(tape, scenario):
         fs.oplog.append((kernel.current_pid, "xdp-attach" if fd >= 0 else "xdp-detach"))
         return orig_attach(ifindex, fd)
     kernel.attach_xdp = attach_xdp
+
+    def install_over_emptied():
+        """did a participant become installer by renaming its directory onto the lock
+        directory that a leaver had just emptied but not yet removed (between its
+        os.remove of its own file and its os.rmdir)? The dispatcher and the pinned table are
+        still installed then, and whoever joined meanwhile holds the old table"""
+        return any(op == "rename-over-empty-dir" and args[0] == LOCKDIR
+                   for pid, op, *args in fs.oplog)
 
     def teardown_race():
         """did a participant become installer between another one's successful
